@@ -216,18 +216,139 @@ def _const_str(node):
 
 
 # ----------------------------------------------------------------------------
+# symbolic string expressions
+# ----------------------------------------------------------------------------
+_FMT = _pystring.Formatter()
+
+
+def _merge(pieces):
+    out = []
+    for p in pieces:
+        if p[0] == "lit":
+            if not p[1]:
+                continue
+            if out and out[-1][0] == "lit":
+                out[-1] = ("lit", out[-1][1] + p[1])
+                continue
+        out.append(p)
+    return out
+
+
+def _sym(node, leaf, env, what, depth=0):
+    """Pieces [("lit", text) | leaf piece] of a string-valued expression built
+    with literals, `+`, `%s`, str.format, f-strings, str(), and local variables
+    assigned exactly once (env: name -> [assignment nodes])."""
+    if depth > 8:
+        _fail("%s: expression nested too deeply" % what, node)
+    rec = lambda n: _sym(n, leaf, env, what, depth + 1)      # noqa: E731
+    if isinstance(node, ast.Constant) and isinstance(node.value, str):
+        return [("lit", node.value)]
+    p = leaf(node)
+    if p is not None:
+        return [p]
+    if isinstance(node, ast.BinOp) and isinstance(node.op, ast.Add):
+        return rec(node.left) + rec(node.right)
+    if (isinstance(node, ast.BinOp) and isinstance(node.op, ast.Mod) and
+            isinstance(node.left, ast.Constant) and isinstance(node.left.value, str)):
+        args = list(node.right.elts) if isinstance(node.right, ast.Tuple) else [node.right]
+        fmt, out, cur, i, k = node.left.value, [], "", 0, 0
+        while i < len(fmt):
+            if fmt.startswith("%%", i):
+                cur, i = cur + "%", i + 2
+            elif fmt.startswith("%s", i):
+                if k >= len(args):
+                    _fail("%s: %%-format arity mismatch" % what, node)
+                out += [("lit", cur)] + rec(args[k])
+                cur, i, k = "", i + 2, k + 1
+            elif fmt[i] == "%":
+                _fail("%s: %%-format directive other than %%s" % what, node)
+            else:
+                cur, i = cur + fmt[i], i + 1
+        if k != len(args):
+            _fail("%s: %%-format arity mismatch" % what, node)
+        return out + [("lit", cur)]
+    if isinstance(node, ast.JoinedStr):
+        out = []
+        for v in node.values:
+            if isinstance(v, ast.Constant):
+                out.append(("lit", str(v.value)))
+            elif (isinstance(v, ast.FormattedValue) and v.format_spec is None and
+                  v.conversion in (-1, 115)):
+                out += rec(v.value)
+            else:
+                _fail("%s: f-string field with a format spec / conversion" % what, node)
+        return out
+    if (isinstance(node, ast.Call) and isinstance(node.func, ast.Attribute) and
+            node.func.attr == "format"):
+        fmt = _const_str(node.func.value)
+        kw = {k.arg: k.value for k in node.keywords if k.arg}
+        out, auto = [], 0
+        try:
+            fields = list(_FMT.parse(fmt))
+        except ValueError as e:
+            _fail("%s: bad format string %r (%s)" % (what, fmt, e), node)
+        for lit, field, spec, conv in fields:
+            out.append(("lit", lit))
+            if field is None:
+                continue
+            if spec or conv not in (None, "s"):
+                _fail("%s: format field with a spec / conversion in %r" % (what, fmt), node)
+            if field == "":
+                idx, auto = auto, auto + 1
+                arg = node.args[idx] if idx < len(node.args) else None
+            elif field.isdigit():
+                arg = node.args[int(field)] if int(field) < len(node.args) else None
+            else:
+                arg = kw.get(field)
+            if arg is None:
+                _fail("%s: format field %r has no argument" % (what, field), node)
+            out += rec(arg)
+        return out
+    if (isinstance(node, ast.Call) and isinstance(node.func, ast.Name) and node.func.id == "str" and
+            len(node.args) == 1 and not node.keywords):
+        return rec(node.args[0])
+    if isinstance(node, ast.Name) and node.id in env:
+        vals = env[node.id]
+        if len(vals) == 1:
+            return rec(vals[0].value)
+        _fail("%s: variable %s assigned %d times" % (what, node.id, len(vals)), node)
+    try:
+        return [("lit", _const_str(node))]
+    except NotTranslatable:
+        _fail("%s: not a string expression that is understood: %s" % (what, _dump(node)[:100]), node)
+
+
+def _local_env(fn):
+    env = {}
+    for n in ast.walk(fn):
+        if isinstance(n, ast.Assign) and len(n.targets) == 1 and isinstance(n.targets[0], ast.Name):
+            env.setdefault(n.targets[0].id, []).append(n)
+    return env
+
+
+def _is_none(node):
+    return isinstance(node, ast.Constant) and node.value is None
+
+
+def _values_of(node, env):
+    """The expressions a returned / opened expression can stand for."""
+    if isinstance(node, ast.Name) and node.id in env:
+        return [a.value for a in env[node.id]]
+    return [node]
+
+
+def _join_tail(node, first, what):
+    """`os.path.join(<first>, X)` -> X."""
+    if not (isinstance(node, ast.Call) and _same(node.func, "os.path.join") and len(node.args) == 2 and
+            not node.keywords and _same(node.args[0], first)):
+        _fail("%s: not os.path.join(%s, <name>)" % (what, first), node)
+    return node.args[1]
+
+
+# ----------------------------------------------------------------------------
 # make_safe_path
 # ----------------------------------------------------------------------------
-def _safe_path(repo):
-    tree = _parse(repo, UTILS)
-    fns = [n for n in tree.body if isinstance(n, ast.FunctionDef) and n.name == "make_safe_path"]
-    if len(fns) != 1:
-        _fail("utils.py: expected exactly one make_safe_path")
-    fn = fns[0]
-    a = fn.args
-    if ([x.arg for x in a.args] != ["base_path"] or a.vararg is None or a.vararg.arg != "args" or
-            a.kwonlyargs or a.kwarg or a.defaults):
-        _fail("make_safe_path: signature is not (base_path, *args)", fn)
+def _safe_path_ast(fn):
     body = _body(fn)
     if len(body) != 4:
         _fail("make_safe_path: expected 4 statements (valid, path, for, return), found %d" % len(body), fn)
@@ -274,51 +395,111 @@ def _safe_path(repo):
     return alphabet, replaces
 
 
+_PROBE_OK_NAMES = {"string", "os", "re", "posixpath", "str", "len", "list", "tuple", "set", "frozenset", "dict",
+                   "filter", "map", "any", "all", "ord", "chr", "range", "enumerate", "zip", "sorted", "reversed",
+                   "isinstance", "True", "False", "None"}
+
+
+def _safe_path_probe(fn, why):
+    """The loop was rewritten.  Evaluate the ISOLATED definition of make_safe_path
+    (a closed function over `string`, `os`, `re` and builtins -- checked: it reads
+    no other global) on every code point and on a battery of strings, and accept
+    only if it behaves like `filter by an alphabet, then per-character replaces,
+    then os.path.join`."""
+    import posixpath
+    import re as _re
+    import sys
+    bound = {a.arg for a in fn.args.args} | {fn.args.vararg.arg}
+    for n in ast.walk(fn):
+        if isinstance(n, (ast.Import, ast.ImportFrom, ast.Global, ast.Nonlocal, ast.Lambda, ast.FunctionDef,
+                          ast.AsyncFunctionDef, ast.ClassDef, ast.While, ast.With, ast.Try, ast.Raise,
+                          ast.Yield, ast.YieldFrom, ast.Await, ast.Delete)) and n is not fn:
+            _fail("make_safe_path: %s; and the rewritten body uses %s" % (why, type(n).__name__), n)
+        if isinstance(n, ast.Name) and isinstance(n.ctx, ast.Store):
+            bound.add(n.id)
+        if isinstance(n, ast.Attribute) and n.attr.startswith("_") and n.attr != "__contains__":
+            _fail("make_safe_path: %s; and the rewritten body touches %s" % (why, n.attr), n)
+    for n in ast.walk(fn):
+        if isinstance(n, ast.Name) and isinstance(n.ctx, ast.Load) and n.id not in bound | _PROBE_OK_NAMES:
+            _fail("make_safe_path: %s; and the rewritten body reads the global %s" % (why, n.id), n)
+    mod = ast.Module(body=[ast.FunctionDef(name=fn.name, args=fn.args, body=fn.body, decorator_list=[],
+                                           returns=None, type_comment=None)], type_ignores=[])
+    ast.fix_missing_locations(mod)
+    safe_builtins = {k: getattr(__import__("builtins"), k) for k in _PROBE_OK_NAMES
+                     if hasattr(__import__("builtins"), k)}
+    ns = {"__builtins__": safe_builtins, "string": _pystring, "os": os, "re": _re, "posixpath": posixpath}
+    try:
+        exec(compile(mod, "<make_safe_path>", "exec"), ns)
+        f = ns[fn.name]
+        image = {}
+        for cp in range(sys.maxunicode + 1):
+            c = chr(cp)
+            r = f("", c)
+            if r != "":
+                image[c] = r
+        alphabet = "".join(sorted(image))
+        replaces = [(c, r) for c, r in sorted(image.items()) if r != c]
+        for c, r in replaces:
+            if any(image.get(d) != d for d in r):
+                _fail("make_safe_path: %s; and a replacement text is itself rewritten" % why, fn)
+
+        def model(base, *args):
+            return posixpath.join(base, *["".join(image.get(c, "") for c in a) for a in args])
+        battery = ["", "a", "a b", " a  b ", "x/y", "../z", "..", ".", "a*b", "(q).1-2_3", "é中 \U0001f600z",
+                   "".join(sorted(image)), "//", "a/", " /", "\t\n"]
+        for base in ("", "/r", "/r/", "rel", "//x"):
+            for a in battery:
+                if f(base, a) != model(base, a):
+                    _fail("make_safe_path: %s; and it is not filter/replace/join on %r, %r" % (why, base, a), fn)
+                for b in battery[:9]:
+                    if f(base, a, b) != model(base, a, b):
+                        _fail("make_safe_path: %s; and it is not filter/replace/join on %r, %r, %r" %
+                              (why, base, a, b), fn)
+            if f(base) != model(base):
+                _fail("make_safe_path: %s; and it is not os.path.join on %r alone" % (why, base), fn)
+    except NotTranslatable:
+        raise
+    except Exception as e:
+        _fail("make_safe_path: %s; and evaluating the isolated definition raised %r" % (why, e), fn)
+    NOTES.append("make_safe_path: %s -- alphabet and replace rules determined by evaluating the isolated "
+                 "definition on every code point" % why)
+    return alphabet, replaces
+
+
+def _safe_path(repo):
+    tree = _parse(repo, UTILS)
+    fns = [n for n in tree.body if isinstance(n, ast.FunctionDef) and n.name == "make_safe_path"]
+    if len(fns) != 1:
+        _fail("utils.py: expected exactly one make_safe_path")
+    fn = fns[0]
+    a = fn.args
+    if (len(a.args) != 1 or a.vararg is None or a.kwonlyargs or a.kwarg or a.defaults or
+            getattr(a, "posonlyargs", [])):
+        _fail("make_safe_path: signature is not (base_path, *args)", fn)
+    try:
+        return _safe_path_ast(fn)
+    except NotTranslatable as e:
+        return _safe_path_probe(fn, str(e))
+
+
 # ----------------------------------------------------------------------------
 # adapters
 # ----------------------------------------------------------------------------
-def _template(call, ext, what):
-    """`"{}.{}".format(step.name, self._extension)` -> pieces."""
-    if not (isinstance(call, ast.Call) and isinstance(call.func, ast.Attribute) and
-            call.func.attr == "format" and not call.keywords):
-        _fail("%s: not a `<literal>.format(...)` call" % what, call)
-    fmt = _const_str(call.func.value)
-    parts = _split_format(fmt, call)
-    if len(parts) != len(call.args) + 1:
-        _fail("%s: format arity mismatch" % what, call)
-    pieces = [("lit", parts[0])]
-    for a, p in zip(call.args, parts[1:]):
-        if _same(a, "step.name"):
-            pieces.append(("name",))
-        elif _same(a, "step.real_name"):
-            pieces.append(("real",))
-        elif _same(a, "self._extension"):
+def _adapter_leaf(step, ext, extra=()):
+    def leaf(n):
+        if _same(n, "%s.name" % step):
+            return ("name",)
+        if _same(n, "%s.real_name" % step):
+            return ("real",)
+        if _same(n, "self._extension") or _same(n, "self.extension"):
             if ext is None:
-                _fail("%s: self._extension used but not a literal in __init__" % what, call)
-            pieces.append(("lit", ext))
-        elif _same(a, "pid"):
-            pieces.append(("pid",))
-        else:
-            pieces.append(("lit", _const_str(a)))
-        pieces.append(("lit", p))
-    # merge literals, drop empty ones
-    out = []
-    for p in pieces:
-        if p[0] == "lit":
-            if not p[1]:
-                continue
-            if out and out[-1][0] == "lit":
-                out[-1] = ("lit", out[-1][1] + p[1])
-                continue
-        out.append(p)
-    return out
-
-
-def _single_assign(fn, name, what):
-    xs = _assigns(fn, name)
-    if len(xs) != 1:
-        _fail("%s: expected exactly one assignment to %s, found %d" % (what, name, len(xs)), fn)
-    return xs[0]
+                _fail("self._extension used but not a literal in __init__", n)
+            return ("lit", ext)
+        for text, piece in extra:
+            if _same(n, text):
+                return piece
+        return None
+    return leaf
 
 
 def _parents(fn):
@@ -327,6 +508,31 @@ def _parents(fn):
         for c in ast.iter_child_nodes(n):
             par[c] = n
     return par
+
+
+def _adapter_structure(ws, cname):
+    """advisory: the restart script exists exactly when the restart command is
+    non-empty; nothing else is opened"""
+    what = cname + "._write_script"
+    par = _parents(ws)
+    rps = _assigns(ws, "restart_path")
+    nones = [r for r in rps if _is_none(r.value)]
+    joins = [r for r in rps if not _is_none(r.value)]
+    if len(joins) != 1 or len(nones) != 1:
+        _fail("%s: restart_path is not assigned once a path and once None" % what, ws)
+    node, guard = joins[0], None
+    while node in par:
+        node = par[node]
+        if isinstance(node, ast.If):
+            guard = node
+            break
+    if guard is None or not _same(guard.test, "restart") or nones[0] not in guard.orelse:
+        _fail("%s: restart path is not guarded by `if restart: ... else: restart_path = None`" % what, ws)
+    opens = [n for n in ast.walk(ws) if isinstance(n, ast.Call) and isinstance(n.func, ast.Name) and
+             n.func.id == "open"]
+    targets = sorted(_dump(o.args[0]) for o in opens if o.args)
+    if targets != sorted([_dump(_expr("script_path")), _dump(_expr("restart_path"))]):
+        _fail("%s: opens something other than script_path and restart_path" % what, ws)
 
 
 def _adapter(repo, rel, cname):
@@ -340,73 +546,74 @@ def _adapter(repo, rel, cname):
             _fail("%s.__init__: several assignments to self._extension" % cname, init)
         ext = _const_str(exts[0].value)
     ws = _find_method(cls, "_write_script")
-    if [x.arg for x in ws.args.args] != ["self", "ws_path", "step"]:
+    params = [x.arg for x in ws.args.args]
+    if len(params) != 3 or params[0] != "self":
         _fail("%s._write_script: signature is not (self, ws_path, step)" % cname, ws)
+    p_ws, p_step = params[1], params[2]
     what = cname + "._write_script"
-    fname = _single_assign(ws, "fname", what)
-    rname = _single_assign(ws, "rname", what)
-    sp = _single_assign(ws, "script_path", what)
-    rps = _assigns(ws, "restart_path")
-    if not _same(sp.value, "os.path.join(ws_path, fname)"):
-        _fail("%s: script_path is not os.path.join(ws_path, fname)" % what, sp)
-    joins = [r for r in rps if not _same(r.value, "None")]
-    nones = [r for r in rps if _same(r.value, "None")]
-    if len(joins) != 1 or len(nones) != 1 or not _same(joins[0].value, "os.path.join(ws_path, rname)"):
-        _fail("%s: restart_path is not os.path.join(ws_path, rname) / None" % what, ws)
-    # the restart script exists exactly when the restart command is non-empty
-    par = _parents(ws)
-    node, guard = rname, None
-    while node in par:
-        node = par[node]
-        if isinstance(node, ast.If):
-            guard = node
-            break
-    if guard is None or not _same(guard.test, "restart") or nones[0] not in guard.orelse:
-        _fail("%s: rname is not guarded by `if restart: ... else: restart_path = None`" % what, rname)
-    opens = [n for n in ast.walk(ws) if isinstance(n, ast.Call) and isinstance(n.func, ast.Name) and
-             n.func.id == "open"]
-    targets = sorted(_dump(o.args[0]) for o in opens if o.args)
-    if targets != sorted([_dump(_expr("script_path")), _dump(_expr("restart_path"))]):
-        _fail("%s: opens something other than script_path and restart_path" % what, ws)
+    env = _local_env(ws)
     rets = [n for n in ast.walk(ws) if isinstance(n, ast.Return)]
-    if len(rets) != 1 or not _same(rets[0].value, "(to_be_scheduled, script_path, restart_path)"):
-        _fail("%s: does not return (to_be_scheduled, script_path, restart_path)" % what, ws)
-    return _template(fname.value, ext, what + " fname"), _template(rname.value, ext, what + " rname"), cls
+    if len(rets) != 1 or not (isinstance(rets[0].value, ast.Tuple) and len(rets[0].value.elts) == 3):
+        _fail("%s: does not end in one `return <scheduled>, <script path>, <restart path>`" % what, ws)
+    e_script, e_restart = rets[0].value.elts[1], rets[0].value.elts[2]
+    leaf = _adapter_leaf(p_step, ext)
+    sv = [v for v in _values_of(e_script, env) if not _is_none(v)]
+    rv = [v for v in _values_of(e_restart, env) if not _is_none(v)]
+    if len(sv) != 1 or len(rv) != 1:
+        _fail("%s: script / restart path not determined by one expression each" % what, rets[0])
+    f = _merge(_sym(_join_tail(sv[0], p_ws, what + " script path"), leaf, env, what + " script name"))
+    r = _merge(_sym(_join_tail(rv[0], p_ws, what + " restart path"), leaf, env, what + " restart name"))
+    _soft(_adapter_structure, ws, cname)
+    return f, r, cls
 
 
 def _local_outputs(cls):
     sub = _find_method(cls, "submit")
     names = [x.arg for x in sub.args.args]
-    if names[:4] != ["self", "step", "path", "cwd"]:
+    if len(names) < 4 or names[0] != "self":
         _fail("LocalScriptAdapter.submit: signature does not start (self, step, path, cwd)", sub)
-    pid = _single_assign(sub, "pid", "LocalScriptAdapter.submit")
-    if not _same(pid.value, "p.pid"):
-        _fail("LocalScriptAdapter.submit: pid is not p.pid", pid)
-    res = []
-    for var in ("o_path", "e_path"):
-        a = _single_assign(sub, var, "LocalScriptAdapter.submit")
-        v = a.value
-        if not (isinstance(v, ast.Call) and _same(v.func, "os.path.join") and len(v.args) == 2 and
-                _same(v.args[0], "cwd")):
-            _fail("LocalScriptAdapter.submit: %s is not os.path.join(cwd, <name>)" % var, a)
-        res.append(_template(v.args[1], None, "LocalScriptAdapter.submit " + var))
+    p_step, p_cwd = names[1], names[3]
+    env = _local_env(sub)
+    leaf = _adapter_leaf(p_step, None, extra=(("p.pid", ("pid",)),))
     opens = [n for n in ast.walk(sub) if isinstance(n, ast.Call) and isinstance(n.func, ast.Name) and
-             n.func.id == "open"]
-    targets = sorted(_dump(o.args[0]) for o in opens if o.args)
-    if targets != sorted([_dump(_expr("o_path")), _dump(_expr("e_path"))]):
-        _fail("LocalScriptAdapter.submit: opens something other than o_path and e_path", sub)
-    starts = [n for n in ast.walk(sub) if isinstance(n, ast.Call) and isinstance(n.func, ast.Name) and
-              n.func.id == "start_process"]
-    if len(starts) != 1 or not any(k.arg == "cwd" and _same(k.value, "cwd") for k in starts[0].keywords):
-        _fail("LocalScriptAdapter.submit: the process is not started with cwd=cwd", sub)
+             n.func.id == "open" and n.args]
+    opens.sort(key=lambda n: (n.lineno, n.col_offset))
+    if len(opens) != 2:
+        _fail("LocalScriptAdapter.submit: expected two open(...) calls (stdout, stderr files), found %d" %
+              len(opens), sub)
+    res = []
+    for o in opens:
+        vals = _values_of(o.args[0], env)
+        if len(vals) != 1:
+            _fail("LocalScriptAdapter.submit: opened path not determined by one expression", o)
+        tail = _join_tail(vals[0], p_cwd, "LocalScriptAdapter.submit output path")
+        res.append(_merge(_sym(tail, leaf, env, "LocalScriptAdapter.submit output name")))
+
+    def structure():
+        starts = [n for n in ast.walk(sub) if isinstance(n, ast.Call) and isinstance(n.func, ast.Name) and
+                  n.func.id == "start_process"]
+        if len(starts) != 1 or not any(k.arg == "cwd" and _same(k.value, p_cwd) for k in starts[0].keywords):
+            _fail("LocalScriptAdapter.submit: the process is not started with cwd=cwd", sub)
+    _soft(structure)
     return res
 
 
 # ----------------------------------------------------------------------------
 # study.py / executiongraph.py shapes the model hard-wires
 # ----------------------------------------------------------------------------
-def _study_shapes(repo):
-    tree = _parse(repo, STUDY)
+def _msp_args(call):
+    """argument names of make_safe_path(self._out_path, *[a, b]) / (self._out_path, a, b)"""
+    if not (call.args and _same(call.args[0], "self._out_path") and not call.keywords):
+        _fail("Study._stage: make_safe_path call is not (self._out_path, ...)", call)
+    rest = call.args[1:]
+    if len(rest) == 1 and isinstance(rest[0], ast.Starred) and isinstance(rest[0].value, (ast.List, ast.Tuple)):
+        rest = rest[0].value.elts
+    if not all(isinstance(e, ast.Name) for e in rest):
+        _fail("Study._stage: make_safe_path arguments are not plain names", call)
+    return tuple(e.id for e in rest)
+
+
+def _stepclass_structure(tree):
     step_cls = _find_class(tree, "StudyStep", STUDY)
     nm = _body(_find_property(step_cls, "name"))
     ok = (len(nm) == 2 and isinstance(nm[0], ast.If) and _same(nm[0].test, "self.nickname") and
@@ -425,64 +632,27 @@ def _study_shapes(repo):
             for x in _body(setters[0])):
         _fail("StudyStep.name setter does not assign self._name = value")
 
-    study_cls = _find_class(tree, "Study", STUDY)
-    stage = _find_method(study_cls, "_stage")
-    # every make_safe_path call inside _stage
-    shapes = []
-    for n in ast.walk(stage):
-        if isinstance(n, ast.Call) and isinstance(n.func, ast.Name) and n.func.id == "make_safe_path":
-            if not (len(n.args) == 2 and _same(n.args[0], "self._out_path") and
-                    isinstance(n.args[1], ast.Starred) and isinstance(n.args[1].value, ast.List) and
-                    all(isinstance(e, ast.Name) for e in n.args[1].value.elts) and not n.keywords):
-                _fail("Study._stage: make_safe_path call is not (self._out_path, *[names])", n)
-            shapes.append(tuple(e.id for e in n.args[1].value.elts))
-    ws_assigns = _assigns(stage, "workspace")
-    ws_shapes = []
-    for a in ws_assigns:
-        v = a.value
-        if not (isinstance(v, ast.Call) and isinstance(v.func, ast.Name) and v.func.id == "make_safe_path"):
-            _fail("Study._stage: workspace assigned from something else than make_safe_path", a)
-        ws_shapes.append(tuple(e.id for e in v.args[1].value.elts))
-    if sorted(ws_shapes) != sorted([("step",), ("step", "nickname"), ("step", "combo_str")]):
-        _fail("Study._stage: workspace shapes are %r" % (sorted(ws_shapes),))
-    others = sorted(set(shapes) - set(ws_shapes))
-    if others not in ([], [("match",)]):
-        _fail("Study._stage: unexpected make_safe_path argument lists %r" % (others,))
-    # nickname = md5(combo_str.encode("utf-8")).hexdigest()  under `if self._hash_ws`
+
+def _stage_structure(stage, ws_assigns):
     par = _parents(stage)
-    nicks = [a for a in _assigns(stage, "nickname") if not _same(a.value, "None")]
+    nicks = [a for a in _assigns(stage, "nickname") if not _is_none(a.value)]
     if len(nicks) != 1 or not _same(nicks[0].value, 'md5(combo_str.encode("utf-8")).hexdigest()'):
         _fail("Study._stage: nickname is not md5(combo_str.encode('utf-8')).hexdigest()")
     g = par.get(nicks[0])
     if not (isinstance(g, ast.If) and _same(g.test, "self._hash_ws") and nicks[0] in g.body):
         _fail("Study._stage: nickname not computed under `if self._hash_ws:`", nicks[0])
-    hashed = [a for a in ws_assigns if tuple(e.id for e in a.value.args[1].value.elts) == ("step", "nickname")]
-    plain = [a for a in ws_assigns if tuple(e.id for e in a.value.args[1].value.elts) == ("step", "combo_str")]
+    hashed = [a for a in ws_assigns if _msp_args(a.value) == ("step", "nickname")]
+    plain = [a for a in ws_assigns if _msp_args(a.value) == ("step", "combo_str")]
     if hashed[0] not in g.body or plain[0] not in g.orelse:
         _fail("Study._stage: hashed/plain workspace not in the two branches of `if self._hash_ws`", g)
-    if not any(_same(a.value, "None") for a in _assigns(stage, "nickname")):
+    if not any(_is_none(a.value) for a in _assigns(stage, "nickname")):
         _fail("Study._stage: nickname is not reset to None for every combination")
-    # instance name:  combo_str = "{}_{}".format(step, combo_str)   (after the workspace was computed)
-    names = [a for a in _assigns(stage, "combo_str")
-             if isinstance(a.value, ast.Call) and isinstance(a.value.func, ast.Attribute) and
-             a.value.func.attr == "format"]
-    if len(names) != 1:
-        _fail("Study._stage: expected one `combo_str = <fmt>.format(step, combo_str)`")
-    nm_call = names[0].value
-    parts = _split_format(_const_str(nm_call.func.value), nm_call)
-    if not (len(nm_call.args) == 2 and _same(nm_call.args[0], "step") and _same(nm_call.args[1], "combo_str") and
-            len(parts) == 3 and parts[0] == "" and parts[2] == ""):
-        _fail("Study._stage: instance name is not '{}<sep>{}'.format(step, combo_str)", nm_call)
-    if not names[0].lineno > g.lineno:
-        _fail("Study._stage: instance name computed before the workspace", names[0])
-    sep = parts[1]
     got = {(_dump(a.targets[0]), _dump(a.value)) for a in ast.walk(stage)
            if isinstance(a, ast.Assign) and len(a.targets) == 1}
-    for t, v in (("step_exp.name", "combo_str"), ("step_exp.nickname", "nickname"),
-                 ("self.workspaces[combo_str]", "workspace"), ("self.workspaces[step]", "workspace")):
-        if (_dump(_expr(t)), _dump(_expr(v))) not in got:
-            _fail("Study._stage: missing `%s = %s`" % (t, v))
-    # the workspace handed to the graph is the computed one
+    for t_, v in (("step_exp.name", "combo_str"), ("step_exp.nickname", "nickname"),
+                  ("self.workspaces[combo_str]", "workspace"), ("self.workspaces[step]", "workspace")):
+        if (_dump(_expr(t_)), _dump(_expr(v))) not in got:
+            _fail("Study._stage: missing `%s = %s`" % (t_, v))
     adds = [n for n in ast.walk(stage) if isinstance(n, ast.Call) and _same(n.func, "dag.add_step")]
     if len(adds) != 2 or not all(len(c.args) >= 3 and _same(c.args[2], "workspace") for c in adds):
         _fail("Study._stage: dag.add_step is not called twice with the computed workspace")
@@ -490,6 +660,38 @@ def _study_shapes(repo):
         _fail("Study._stage: expanded step not added under step_exp.real_name")
     if not any(_same(c.args[0], "step") for c in adds):
         _fail("Study._stage: unparameterised step not added under its own name")
+
+
+def _study_shapes(repo):
+    tree = _parse(repo, STUDY)
+    _soft(_stepclass_structure, tree)
+    study_cls = _find_class(tree, "Study", STUDY)
+    stage = _find_method(study_cls, "_stage")
+    # DATA: the argument lists of the make_safe_path calls that produce a workspace
+    ws_assigns = [a for a in _assigns(stage, "workspace")]
+    ws_shapes = []
+    for a in ws_assigns:
+        v = a.value
+        if not (isinstance(v, ast.Call) and isinstance(v.func, ast.Name) and v.func.id == "make_safe_path"):
+            _fail("Study._stage: workspace assigned from something else than make_safe_path", a)
+        ws_shapes.append(_msp_args(v))
+    if sorted(set(ws_shapes)) != sorted([("step",), ("step", "nickname"), ("step", "combo_str")]):
+        _fail("Study._stage: workspace shapes are %r" % (sorted(set(ws_shapes)),))
+    # DATA: instance name  combo_str = "{}_{}".format(step, combo_str)  (any string-building form)
+    leaf = lambda n: (("step",) if _same(n, "step") else ("combo",) if _same(n, "combo_str") else None)  # noqa: E731
+    sep = None
+    for a in _assigns(stage, "combo_str"):
+        try:
+            pieces = _merge(_sym(a.value, leaf, {}, "Study._stage instance name"))
+        except NotTranslatable:
+            continue
+        if len(pieces) == 3 and pieces[0] == ("step",) and pieces[1][0] == "lit" and pieces[2] == ("combo",):
+            if sep is not None and sep != pieces[1][1]:
+                _fail("Study._stage: two different instance-name separators")
+            sep = pieces[1][1]
+    if sep is None:
+        _fail("Study._stage: no `combo_str = <step><sep><combo_str>` instance name found")
+    _soft(_stage_structure, stage, ws_assigns)
     return sep
 
 
@@ -564,7 +766,26 @@ def _g_tmpl(t):
     return "[" + "; ".join(_g_piece(p) for p in t) + "]"
 
 
+def _write_notes():
+    try:
+        import json
+        from harness import common
+        os.makedirs(common.WORK, exist_ok=True)
+        with open(os.path.join(common.WORK, "tdata_misc_notes.json"), "w") as f:
+            json.dump(NOTES, f, indent=1)
+    except Exception:
+        pass
+
+
 def generate(repo):
+    del NOTES[:]
+    try:
+        return _generate(repo)
+    finally:
+        _write_notes()
+
+
+def _generate(repo):
     alphabet, replaces = _safe_path(repo)
     scripts, restarts, local_cls = {}, {}, None
     for aid, rel, cname in ADAPTERS:
@@ -574,15 +795,15 @@ def generate(repo):
             local_cls = cls
     out_t, err_t = _local_outputs(local_cls)
     sep = _study_shapes(repo)
-    _exec_shapes(repo)
+    _soft(_exec_shapes, repo)        # structure of the hand-written part: advisory
 
     L = []
     L.append("(** GENERATED by translate/tdata_misc.py from the source text of /repo -- do not edit.")
     L.append("    make_safe_path's alphabet and replace rules (maestrowf/utils.py), the script /")
     L.append("    restart-script file-name templates of the four adapters' _write_script, the")
     L.append("    output file names of LocalScriptAdapter.submit, and the workspace shapes of")
-    L.append("    Study._stage.  The generator also checked (fail-closed) the facts SafePath.v")
-    L.append("    hard-wires: see the doc-string of the generator. *)")
+    L.append("    Study._stage (data: fail-closed).  The structural facts SafePath.v hard-wires are")
+    L.append("    checked too, as advisory notes: see the doc-string of the generator. *)")
     L.append("From MWF Require Import Base.Str.")
     L.append("")
     L.append("(* the `valid` string, as code points, in source order *)")
